@@ -359,6 +359,9 @@ class Flattener:
         for x in pre:
             x._xv_bind = True  # type: ignore[attr-defined]
         used |= {mapping.get(n, n) for n in locs}
+        # an argument that is itself a resolvable helper call (`outer(inner(a))`): expand the parameter binding too
+        if any(isinstance(x.value, ast.Call) for x in pre):
+            pre = self._stmts(pre, mod, cls, used, depth - 1, stack, local_names)
         qual = qual_of(callee) or callee.name
         self.expanded.append((getattr(s, "lineno", 0), f"{cmod.rel}:{qual}"))
         # helper's own nested helpers
@@ -427,8 +430,35 @@ class Flattener:
             rep = self._expand(s, mod, cls, used, depth, stack, local_names)
             if rep is None and isinstance(s, ast.With):
                 rep = self._expand_cm(s, mod, cls, used, depth, stack, local_names)
+            if rep is None:
+                rep = self._hoist_first_arg(s, mod, cls, used, depth, stack, local_names)
             out.extend(rep if rep is not None else [s])
         return out
+
+    def _hoist_first_arg(self, s, mod, cls, used, depth, stack, local_names):
+        """`f(helper(a), ..)` as the value of a statement, `helper` resolvable: the helper call is evaluated first (after the
+        plain name lookup of `f`), so `t = helper(a); f(t, ..)` is the same program - and `t = helper(a)` can be expanded."""
+        if depth <= 0 or not isinstance(s, (ast.Expr, ast.Assign, ast.Return)) or not isinstance(getattr(s, "value", None), ast.Call):
+            return None
+        outer = s.value
+        f = outer.func
+        while isinstance(f, ast.Attribute):
+            f = f.value
+        if not isinstance(f, ast.Name) or not outer.args or not isinstance(outer.args[0], ast.Call):
+            return None
+        inner = outer.args[0]
+        res = self.resolve(mod, cls, inner, local_names)
+        if res is None or not self._eligible(res[1], stack):
+            return None
+        self.k += 1
+        tname = f"__xv_h{self.k}"
+        tmp = ast.copy_location(ast.Assign(targets=[ast.Name(id=tname, ctx=ast.Store())], value=inner, type_comment=None), s)
+        ast.fix_missing_locations(tmp)
+        exp = self._expand(tmp, mod, cls, used, depth, stack, local_names)
+        if exp is None:
+            return None
+        outer.args[0] = ast.copy_location(ast.Name(id=tname, ctx=ast.Load()), inner)
+        return exp + [s]
 
     def _expand_cm(self, s, mod, cls, used, depth, stack, local_names):
         """`with helper(args) [as v]: body` where helper is a generator-based context manager of the repository
